@@ -263,11 +263,11 @@ Section Unm.
       + cbn [length]. rewrite app_length. cbn [bind]. do 3 f_equal. unfold pp. lia.
       + intros k' Hin [->|Hs]; [contradiction|]. eapply Hseen; [right; exact Hin|exact Hs].
       + lia.
-      + replace (pp - (length (toks x) - 1))%nat with (S pp - length (toks x))%nat by lia.
+      + replace (pp - (length (t :: tr) - 1))%nat with (S pp - length (toks x))%nat by (rewrite Ltx; cbn [length]; lia).
         set (R' := ents r ++ TMapClose :: R) in *.
         assert (E : R' = skipn (length (toks x)) ((t :: tr) ++ R')).
         { rewrite <- Et. now rewrite skipn_app, skipn_all, Nat.sub_diag. }
-        rewrite E at 1. Show. rewrite firstn_skipn_comm. apply winI_skipn. exact W'.
+        rewrite E at 1. rewrite firstn_skipn_comm. apply winI_skipn. exact W'.
   Qed.
 
   Lemma nodup_keys_NoDup {V} (m : list (bytes * V)) : nodup_keys m = true -> NoDup (map fst m).
@@ -278,7 +278,7 @@ Section Unm.
   Qed.
 
   Lemma fold_max_le (A : Type) (g : A -> N) (l : list A) x : In x l -> g x <= fold_right (fun y a => N.max (g y) a) 0 l.
-  Proof. induction l as [|y r IH]; intros [->|H]; cbn [fold_right]; [lia|specialize (IH H); lia]. Qed.
+  Proof. induction l as [|y r IH]; intros H; [contradiction|]. destruct H as [->|H]; cbn [fold_right]; [lia|specialize (IH H); lia]. Qed.
 
   (* the look-ahead part of C04, together with the structural recursion *)
   Theorem U gf v : P gf v.
@@ -329,7 +329,7 @@ Section Unm.
       rewrite aunm_S, (depth_check d (DMap m) Hd) by (cbn [jdepth]; lia). rewrite Olinks, Obytes.
       rewrite A1. cbn [bind]. rewrite A2. cbn [bind]. cbn [need] in Hf.
       rewrite (U_map gf m IH) with (d := d); try assumption.
-      + cbn [bind]. rewrite app_length. cbn [length]. do 3 f_equal. lia.
+      + cbn [bind]. cbn [length]. rewrite app_length. cbn [length]. do 3 f_equal. lia.
       + rewrite forallb_forall in *. intros kv Hkv. specialize (S3 kv Hkv). apply andb_true_iff in S3. tauto.
       + now apply nodup_keys_NoDup.
       + intros k _ [].
